@@ -78,22 +78,33 @@ def _call(f, *a):
         return f"EXC {type(e).__name__}: {e}"
 
 
-def _check_norm(rules, V, W, exact, inp0, maxlen, fails, order=None):
+def _check_norm(rules, V, W, exact, inp0, maxlen, fails, order=None, fresh=False):
     evals = 0
-    wrules = [(w, h, b) for w, (h, b) in zip(W, rules)]
+    S0 = "S"
+    ren = None
+    if fresh:
+        # every occurrence of a nonterminal is an equal but NOT identical object; the reference works on the
+        # value-equal plain names
+        nts = {"S"} | {h for h, _ in rules} | {y for _, b in rules for y in b if y not in V}
+        ren = gram.FreshNames(nts)
+        nm = lambda y: "N:" + y if y in nts else y  # noqa: E731
+        wrules = [(w, nm(h), tuple(nm(y) for y in b)) for w, (h, b) in zip(W, rules)]
+        S0 = "N:S"
+    else:
+        wrules = [(w, h, b) for w, (h, b) in zip(W, rules)]
     tol = 0 if exact else 1e-16
     try:
         Z = ref_totals(wrules, V, Float, tol=tol, maxit=5000)
     except (NoConvergence, OverflowError):
         return 0, 0, 1
-    ZS = Z.get("S", 0)
+    ZS = Z.get(S0, 0)
     if not (ZS > 0) or any(v > 1e6 for v in Z.values()):
         return 0, 0, 1
 
     def close(a, b):
         return a == b if exact else gram.fclose(a, b)
 
-    g = gram.build(rules, Float, W, V=V, order=order)
+    g = gram.build(rules, Float, W, V=V, order=order, rename=ren)
     new = _call(locally_normalize, g)
     evals += 1
     if isinstance(new, str):
@@ -120,7 +131,7 @@ def _check_norm(rules, V, W, exact, inp0, maxlen, fails, order=None):
         fails.append(_fail("locally_normalize: total weight is one", inp0, Zn, 1))
     for x in strings_upto(sorted(V), maxlen):
         try:
-            want = ref_weight(wrules, "S", V, Float, x, tol=tol, maxit=400) / ZS
+            want = ref_weight(wrules, S0, V, Float, x, tol=tol, maxit=400) / ZS
             have = ref_weight(nrules, new.S, new.V, Float, x, tol=tol, maxit=400)
         except NoConvergence:
             continue
@@ -128,6 +139,13 @@ def _check_norm(rules, V, W, exact, inp0, maxlen, fails, order=None):
         if not close(have, want):
             fails.append(_fail("locally_normalize: ln(G)(x) == G(x)/Z", dict(inp0, x=list(x)), have, want))
             break
+        if fresh:
+            # the normalised grammar is what a user evaluates: the library's own evaluation of it
+            lib = _call(new, x)
+            evals += 1
+            if isinstance(lib, str) or not close(lib, want):
+                fails.append(_fail("locally_normalize: ln(G)(x) == G(x)/Z (evaluated by the library)", dict(inp0, x=list(x)), lib, want))
+                break
     return evals, 1, 0
 
 
@@ -150,6 +168,9 @@ def run_norm(case):
         for oname, order in (("reversed", list(range(n))[::-1]), ("rotated", list(range(1, n)) + [0])):
             e, nt, sk = _check_norm(rules, V, [FLOATW[i % 6] for i in range(n)], False, {"rules": case["rules"], "weights": "float", "rule_order": oname}, maxlen, fails, order=order)
             evals += e
+    if n <= 2 or case["name"].startswith("sharp"):
+        e, nt, sk = _check_norm(rules, V, [FLOATW[i % 6] for i in range(n)], False, {"rules": case["rules"], "weights": "float", "names": "a new equal-but-not-identical object per occurrence"}, maxlen, fails, fresh=True)
+        evals += e
     var_of = gram.shared_vars(rules)
     if var_of is not None:
         # duplicate rules with EQUAL weights (rule objects equal by value)
